@@ -7,7 +7,8 @@
    Hypotheses: pixel scales non-zero (the code divides the origin by them); positive where a derived pixel scale must be
    non-zero (overlay).  Index-valued statements need no hypothesis at all. *)
 From Coq Require Import ZArith QArith List Bool Reals Lra.
-From PAV Require Import Base.Res Base.NumOps Model.C12 Proofs.C12 Proofs.C12Reloc.
+From PAV Require Import Base.Res Base.NumOps Model.C12 Proofs.C12 Proofs.C12Reloc Proofs.C12Spec Proofs.C12Edge.
+From PAV Require Model.C10.
 Import ListNotations.
 Local Open Scope R_scope.
 
@@ -185,6 +186,128 @@ Theorem C12_relocation_translates :
      relocated_grid_from idx (shift d g) = shift d (relocated_grid_from idx g)).
 Proof. exact (conj relocate_translates relocated_grid_from_translates). Qed.
 
+(* ================================================================ "model = origin-free form + origin" for the remaining entry points *)
+(* mask_centre and the zoom quantities: the centre of the bounding box of the unmasked pixels ([rel_box_centre] in scaled units,
+   [rel_zoom_centre] in pixel units; neither mentions an origin); the zoomed masks sit at origin + that centre.
+   The first two clauses need no hypothesis: centre and interior size of the origin-free pixel-centre grid itself. *)
+Theorem C12_mask_centre_and_zoom_relative_forms :
+  (forall m (ps : @pt ROps), grid_centre (rel_grid m ps) = rel_box_centre m ps) /\
+  (forall m (ps : @pt ROps), 0 < fst ps -> 0 < snd ps ->
+  interior (rel_grid m ps) =
+  match bbox m with Some (y0, y1, x0, x1) => Some (IZR (y1 - y0) * fst ps, IZR (x1 - x0) * snd ps) | None => None end) /\
+  (forall (M : @mask2d ROps), fst (mps M) <> 0 -> snd (mps M) <> 0 ->
+  mask_centre M = oshift (morg M) (rel_box_centre (mk M) (mps M))) /\
+  (forall (M : @mask2d ROps), fst (mps M) <> 0 -> snd (mps M) <> 0 ->
+  zoom_centre M = rel_zoom_centre (mk M)) /\
+  (forall (M : @mask2d ROps), fst (mps M) <> 0 -> snd (mps M) <> 0 ->
+  zoom_offset_pixels M = option_map (fun z => psub z (centre_px (rows (mk M)) (cols (mk M)))) (rel_zoom_centre (mk M))) /\
+  (forall (M : @mask2d ROps), fst (mps M) <> 0 -> snd (mps M) <> 0 ->
+  zoom_offset_scaled M = rel_box_centre (mk M) (mps M)) /\
+  (forall (M : @mask2d ROps), fst (mps M) <> 0 -> snd (mps M) <> 0 ->
+  zoom_mask_unmasked M =
+  match zoom_shape (mk M), rel_box_centre (mk M) (mps M) with
+  | Some s, Some c => Some (m_all_false (fst s) (snd s) (mps M) (padd (morg M) c))
+  | _, _ => None
+  end) /\
+  (forall (M : @mask2d ROps), fst (mps M) <> 0 -> snd (mps M) <> 0 -> forall b,
+  zoomed_around_mask M b =
+  match zoom_region (mk M), rel_box_centre (mk M) (mps M) with
+  | Some (y0, y1, x0, x1), Some c => Some (m_all_false ((y1 + b) - (y0 - b)) ((x1 + b) - (x0 - b)) (mps M) (padd c (morg M)))
+  | _, _ => None
+  end).
+Proof. exact (conj grid_centre_rel_grid (conj x_interior_rel_grid (conj x_mask_centre_spec (conj x_zoom_centre_spec (conj x_zoom_offset_pixels_spec (conj x_zoom_offset_scaled_spec (conj x_zoom_mask_unmasked_spec x_zoomed_around_mask_spec))))))). Qed.
+
+(* the Overlay image mesh: overlay grid laid on the bounding box, pixels looked up by position relative to the origin *)
+Theorem C12_overlay_mesh_relative_form : forall (M : @mask2d ROps), 0 < fst (mps M) -> 0 < snd (mps M) ->
+  forall sy sx, (0 < sy)%Z -> (0 < sx)%Z ->
+  overlay M sy sx = rshift (morg M) (rel_overlay (mk M) (mps M) sy sx).
+Proof. exact x_overlay_spec. Qed.
+
+(* the rectangular mesh / MapperRectangular: the index table is a function of the positions relative to the mesh box (no
+   hypothesis), so it is the same for every common translation of the grid; the mesh grid = origin-free grid + mesh origin *)
+Theorem C12_rect_mapper_relative_form :
+  (forall sy sx (g : list (@pt ROps)) (b : R), rect_mapper sy sx g b = rel_rect_mapper sy sx g b) /\
+  (forall sy sx (g : list (@pt ROps)) (b : R) (d : @pt ROps), rel_rect_mapper sy sx (shift d g) b = rel_rect_mapper sy sx g b) /\
+  (forall (r : @rmesh ROps), fst (r_ps r) <> 0 -> snd (r_ps r) <> 0 ->
+  rect_mesh_grid r = shift (r_org r) (rel_grid (all_false (fst (r_shape r)) (snd (r_shape r))) (r_ps r))).
+Proof. exact (conj rect_mapper_spec (conj rel_rect_mapper_invariant x_rect_mesh_grid_spec)). Qed.
+
+(* the Hilbert mesh geometry: the radius cut sqrt(y^2 + x^2) <= r is the sqrt-free test (0 <= r and y^2 + x^2 <= r^2) on the
+   origin-free curve; the kept points and the interpolation grid are origin-free forms + origin *)
+Theorem C12_hilbert_relative_forms :
+  (forall (curve : list (@pt ROps)) (r : R), hilbert_cut curve r = rel_hilbert_cut curve r) /\
+  (forall (M : @mask2d ROps) curve r, hilbert_curve_grid M curve r = shift (morg M) (rel_hilbert_cut curve r)) /\
+  (forall (M : @mask2d ROps), fst (mps M) <> 0 -> snd (mps M) <> 0 -> forall n,
+  hilbert_image_grid M n = shift (morg M) (rel_grid (all_false n n) (mps M))).
+Proof. exact (conj hilbert_cut_spec (conj hilbert_curve_grid_spec x_hilbert_image_grid_spec)). Qed.
+
+(* radial projection at ANY angle, the angle given as the pair cssn = (cos theta, sin theta):
+   (1) the points move by d when mask and centre are translated by d -- whatever the pair is (no hypothesis);
+   (2) angle 0 (pair (1, 0)) is the model of C12_radial_projection;
+   (3, 4) for positive pixel scales the projection is the origin-free form + origin;
+   (5) if cos^2 + sin^2 = 1, the i-th point of that form lies on the ray of the angle at distance i * step from the centre. *)
+Theorem C12_radial_projection_any_angle :
+  (forall (cssn d : @pt ROps) (M : @mask2d ROps) (c : @pt ROps) shape_slim remove_centre,
+  radial_projected_from_a cssn (translate d M) (padd c d) shape_slim remove_centre
+  = shift d (radial_projected_from_a cssn M c shape_slim remove_centre)) /\
+  (forall (e : @ext ROps) (c ps : @pt ROps) shape_slim remove_centre,
+  radial_projected_a ((1, 0) : @pt ROps) e c ps shape_slim remove_centre = radial_projected e c ps shape_slim remove_centre) /\
+  (forall (M : @mask2d ROps), 0 < fst (mps M) -> 0 < snd (mps M) -> forall (cssn c : @pt ROps) shape_slim remove_centre,
+  radial_projected_from_a cssn M c shape_slim remove_centre
+  = shift (morg M) (rel_radial_a cssn (rows (mk M)) (cols (mk M)) (mps M) (psub c (morg M)) shape_slim remove_centre)) /\
+  (forall (M : @mask2d ROps), 0 < fst (mps M) -> 0 < snd (mps M) -> forall (c : @pt ROps) shape_slim remove_centre,
+  radial_projected_from M c shape_slim remove_centre
+  = shift (morg M) (rel_radial (rows (mk M)) (cols (mk M)) (mps M) (psub c (morg M)) shape_slim remove_centre)) /\
+  (forall (cssn : @pt ROps) H W (ps r : @pt ROps) shape_slim remove_centre p, 0 < fst ps -> 0 < snd ps ->
+  fst cssn * fst cssn + snd cssn * snd cssn = 1 ->
+  In p (rel_radial_a cssn H W ps r shape_slim remove_centre) ->
+  exists i, (0 <= i)%Z /\
+    p = (fst r + IZR i * snd (rel_radial_scale H W ps r) * snd cssn, snd r + IZR i * snd (rel_radial_scale H W ps r) * fst cssn) /\
+    radius r p = IZR i * snd (rel_radial_scale H W ps r)).
+Proof. exact (conj radial_projected_from_a_translates (conj radial_projected_a_angle0 (conj x_radial_projected_from_a_spec (conj x_radial_projected_from_spec x_rel_radial_a_points)))). Qed.
+
+(* BorderRelocator.sub_border_grid = sub_grid[sub_border_slim] (any sub-size map, uniform or not; any index list within the
+   sub-grid) moves by d and is a selection from the origin-free over-sampled grid + origin; relocated_mesh_grid_from relocates a
+   translated mesh against the border of the translated data grid to the translated result *)
+Theorem C12_border_views_translate :
+  (forall (M : @mask2d ROps), fst (mps M) <> 0 -> snd (mps M) <> 0 -> forall d subs idx,
+  Forall (fun i => (i < length (over_sampled_grid M subs))%nat) idx ->
+  sub_border_grid (translate d M) subs idx = shift d (sub_border_grid M subs idx)) /\
+  (forall (M : @mask2d ROps), fst (mps M) <> 0 -> snd (mps M) <> 0 -> forall subs idx,
+  sub_border_grid M subs idx = gather zpt (shift (morg M) (rel_over (mk M) (mps M) subs)) idx) /\
+  (forall (d : @pt ROps) (idx : list nat) (g mesh : list (@pt ROps)), Forall (fun i => (i < length g)%nat) idx ->
+  relocated_mesh_grid_from idx (shift d g) (shift d mesh) = shift d (relocated_mesh_grid_from idx g mesh)).
+Proof. exact (conj x_sub_border_grid_translates (conj x_sub_border_grid_spec relocated_mesh_grid_from_translates)). Qed.
+
+(* derive_grid.edge / derive_grid.border with the index lists of C10's models of edge_1d_indexes_from / border_slim_indexes_from
+   ([edge_sel] / [border_sel] = those lists as naturals): for rectangular masks C10's slim order IS the double loop of C12's
+   model, every index is in range (C10_edge_sound, C10_border_membership), so the index hypothesis of C12_mask_grids_translate is
+   discharged; any selection is a selection from the origin-free grid + origin *)
+Theorem C12_edge_and_border_grids_translate :
+  (forall m : mask, Model.C10.rectb m = true -> unmasked m = Model.C10.unmasked_pixels m) /\
+  (forall (d : @pt ROps) (M : @mask2d ROps), Model.C10.rectb (mk M) = true -> fst (mps M) <> 0 -> snd (mps M) <> 0 ->
+  derive_grid_sel edge_sel (translate d M) = shift d (derive_grid_sel edge_sel M)) /\
+  (forall (d : @pt ROps) (M : @mask2d ROps), Model.C10.rectb (mk M) = true -> fst (mps M) <> 0 -> snd (mps M) <> 0 ->
+  derive_grid_sel border_sel (translate d M) = shift d (derive_grid_sel border_sel M)) /\
+  (forall (sel : mask -> list nat) (M : @mask2d ROps), fst (mps M) <> 0 -> snd (mps M) <> 0 ->
+  derive_grid_sel sel M = gather zpt (shift (morg M) (rel_grid (mk M) (mps M))) (sel (mk M))).
+Proof. exact (conj unmasked_is_C10 (conj derive_grid_edge_translates (conj derive_grid_border_translates derive_grid_sel_spec))). Qed.
+
+(* the remaining grid-valued call sites: with C12_relative_forms and the theorems above, EVERY grid-valued entry point of the model
+   equals an origin-free closed form + origin (the subtracted grid also is the pixel-centre grid of its own re-based mask) *)
+Theorem C12_call_site_relative_forms :
+  (forall (M : @mask2d ROps), fst (mps M) <> 0 -> snd (mps M) <> 0 ->
+  derive_grid_all_false M = shift (morg M) (rel_grid (all_false (rows (mk M)) (cols (mk M))) (mps M))) /\
+  (forall (M : @mask2d ROps), fst (mps M) <> 0 -> snd (mps M) <> 0 -> forall bl : mask -> mask,
+  blurring_grid_from bl M = shift (morg M) (rel_grid (bl (mk M)) (mps M))) /\
+  (forall (M : @mask2d ROps), fst (mps M) <> 0 -> snd (mps M) <> 0 -> forall kh kw,
+  padded_grid_from M kh kw = shift (morg M) (rel_grid (all_false (rows (mk M) + kh - 1) (cols (mk M) + kw - 1)) (mps M))) /\
+  (forall (M : @mask2d ROps), fst (mps M) <> 0 -> snd (mps M) <> 0 -> forall off,
+  subtracted_grid M off = shift (psub (morg M) off) (rel_grid (mk M) (mps M)) /\ subtracted_grid M off = from_mask (subtracted_mask M off)) /\
+  (forall (ds : @imaging ROps), fst (mps (i_data ds)) <> 0 -> snd (mps (i_data ds)) <> 0 ->
+  dataset_grid ds = shift (morg (i_data ds)) (rel_grid (mk (i_data ds)) (mps (i_data ds)))).
+Proof. exact (conj x_derive_grid_all_false_spec (conj x_blurring_grid_from_spec (conj x_padded_grid_from_spec (conj x_subtracted_grid_spec x_dataset_grid_spec)))). Qed.
+
 (* the seven call sites as they were before the repairs (fixes/C12_*.diff, now committed in /repo): each violates the law
    with origin (0,0), d = (1,0) *)
 Theorem C12_dropped_origin_call_sites_refuted :
@@ -224,6 +347,32 @@ Example C12_hyps_satisfiable :
   overlay (translate d M) 3 2 = rshift d (overlay M 3 2) /\
   Forall (fun i => (i < length (from_mask M))%nat) [0; 1; 4]%nat.
 Proof. vm_compute. repeat split; repeat constructor. Qed.
+(* the new closed forms on the same non-square mask (exact rationals): the bounding-box centre, the zoom quantities, the overlay and
+   the radial projection at the 3-4-5 angle (cos, sin) = (3/5, 4/5), cos^2 + sin^2 = 1, with non-trivial values *)
+Example C12_relative_forms_nonvacuous :
+  let m := [[false; true; true; false]; [true; false; true; true]; [true; true; false; false]] in
+  let M : @mask2d QOps := mkM m (1 # 2, 3 # 2)%Q (1 # 4, - 3 # 8)%Q in
+  let cssn : @pt QOps := (3 # 5, 4 # 5)%Q in
+  mask_centre M = oshift (morg M) (rel_box_centre m (mps M)) /\ @rel_box_centre QOps m (mps M) = Some (0, 0)%Q /\
+  zoom_centre M = rel_zoom_centre m /\ @rel_zoom_centre QOps m = Some (1, 3 # 2)%Q /\
+  overlay M 3 2 = rshift (morg M) (rel_overlay m (mps M) 3 2) /\
+  radial_projected_from_a cssn M (1 # 2, 1 # 8)%Q 0 false
+  = shift (morg M) (rel_radial_a cssn (rows m) (cols m) (mps M) (@psub QOps (1 # 2, 1 # 8)%Q (morg M)) 0 false) /\
+  radial_projected_from_a cssn M (1 # 2, 1 # 8)%Q 0 false = [(1 # 2, 1 # 8); (17 # 10, 41 # 40); (29 # 10, 77 # 40)]%Q /\
+  (fst cssn * fst cssn + snd cssn * snd cssn == 1)%Q /\
+  sub_border_grid M [1; 2; 1; 1; 2]%Z [0; 2; 5]%nat = [(3 # 4, - 21 # 8); (7 # 8, 9 # 4); (1 # 4, - 9 # 8)]%Q /\
+  Forall (fun i => (i < length (over_sampled_grid M [1; 2; 1; 1; 2]%Z))%nat) [0; 2; 5]%nat.
+Proof. vm_compute. repeat split; repeat constructor. Qed.
+(* a rectangular 4 x 5 mask with an interior pixel: C10's edge / border lists are non-empty, proper sub-lists, and the edge grid moves by d *)
+Example C12_edge_hyps_satisfiable :
+  let m := [[true; false; false; false; true]; [false; false; false; false; false]; [false; false; false; false; true]; [true; false; false; true; true]] in
+  let M : @mask2d QOps := mkM m (1 # 2, 3 # 2)%Q (1 # 4, - 3 # 8)%Q in
+  let d : @pt QOps := (5 # 8, - 9 # 8)%Q in
+  Model.C10.rectb m = true /\ length (unmasked m) = 14%nat /\ edge_sel m = [0; 1; 2; 3; 4; 6; 7; 8; 9; 10; 11; 12; 13]%nat /\
+  border_sel m = [0; 1; 2; 3; 7; 8; 11; 12; 13]%nat /\
+  derive_grid_sel edge_sel (translate d M) = shift d (derive_grid_sel edge_sel M) /\
+  unmasked m = Model.C10.unmasked_pixels m.
+Proof. vm_compute. repeat split. Qed.
 Example C12_real_hyps_satisfiable : exists M : @mask2d ROps, 0 < fst (mps M) /\ 0 < snd (mps M) /\ fst (mps M) <> 0 /\ snd (mps M) <> 0.
 Proof. exists {| mk := [[false]]; mps := ((1, 2) : @pt ROps); morg := ((3, 4) : @pt ROps) |}. cbn. repeat split; lra. Qed.
 
@@ -246,3 +395,11 @@ Print Assumptions C12_datasets_keep_the_frame.
 Print Assumptions C12_subtracted_from_translates.
 Print Assumptions C12_relocation_translates.
 Print Assumptions C12_dropped_origin_call_sites_refuted.
+Print Assumptions C12_mask_centre_and_zoom_relative_forms.
+Print Assumptions C12_overlay_mesh_relative_form.
+Print Assumptions C12_rect_mapper_relative_form.
+Print Assumptions C12_hilbert_relative_forms.
+Print Assumptions C12_radial_projection_any_angle.
+Print Assumptions C12_border_views_translate.
+Print Assumptions C12_edge_and_border_grids_translate.
+Print Assumptions C12_call_site_relative_forms.
